@@ -28,6 +28,9 @@ func checkC03(c *Check, a *Anchors) {
 	c03NoDroppedError(c, a)
 	c03ExitCodeMap(c, a)
 	c14Registration(c, a) // a defer entry is registered only when the loop reaches it: nothing listed after a failing command starts
+	c07SlotPaired(c, a)   // "the invocation ends with a non-zero status": a slot that is not taken back on the failing path blocks the caller's own release for ever
+	c07SlotStates(c, a)
+	cancellationPropagates(c, a)
 }
 
 // ssaLabel names a call instruction by its (static or interface) callee object.
